@@ -30,9 +30,12 @@ def rect_table(rng, w=None, max_rows=5):
 
 
 def gen_case(rng, i):
-    family = ['plain', 'distinct', 'count', 'top', 'group', 'except', 'update', 'join', 'join-count', 'unnest', 'plain', 'count'][i % 12]
+    family = ['plain', 'distinct', 'count', 'top', 'group', 'except', 'update', 'join', 'join-count', 'unnest', 'plain', 'division'][i % 12]
     join = family in ('join', 'join-count') or (family in ('plain', 'distinct', 'top') and rng.random() < 0.25)
     A, wa = rect_table(rng)
+    if family == 'division':
+        for r in A:
+            r[0] = rng.choice([1, 2, 4, 10])      # a column of native numbers, so that a quotient means the same in both languages
     B, wb = rect_table(rng) if join else (None, 0)
     has_header = (i // 12) % 2 == 0
     a_names = gq.gen_names(rng, wa) if has_header else None
@@ -62,6 +65,18 @@ def gen_case(rng, i):
                 f[3] = 'dq'
         if rng.random() < 0.4:
             q['distinct'] = rng.choice(['distinct', 'count'])
+        return common.case_json(q, T, extra={'init': True})
+    if family == 'division':
+        # a slash right after a closing bracket, another one in a later item: nothing but two quotients (not a regular-expression literal, not a comment)
+        sp = rng.choice(['arr', 'dq', 'sq', 'arr'] if has_header else ['arr'])
+        d1 = ['cmp', rng.choice(['>', '<']), ['div', ['field', 'a', 0, sp], ['int', rng.choice([2, 4])]], ['int', 1]]
+        d2 = ['cmp', '<', ['div', ['field', 'a', 0, rng.choice(['arr', 'var'])], ['int', rng.choice([2, 5, 100])]], ['int', 2]]
+        q['items'] = [{'kind': 'expr', 'expr': d1}, {'kind': 'expr', 'expr': rng.choice([['NR'], ['field', 'a', 0, 'var'], ['NF']])}, {'kind': 'expr', 'expr': d2}]
+        if rng.random() < 0.5:
+            q['items'][rng.choice([0, 2])].update(alias=g.alias(), as_kw=rng.choice(['as', 'AS']))
+        if rng.random() < 0.3:
+            q['items'].insert(1, {'kind': 'astar'})
+        q['bare'] = rng.random() < 0.6
         return common.case_json(q, T, extra={'init': True})
     if family == 'group':
         kf = ['field', 'a', 0, g.spelling('a', 0)]
@@ -289,7 +304,7 @@ def run_shard(spec, res):
 def summarize(tier, seed, m):
     shapes = sorted(k[6:] for k in m['counters'] if k.startswith('shape:'))
     return {
-        'rule': 'select lists of 1-4 items over fields in five spellings, stars, NR / NF / aNR / bNR, calls of user functions with commas and brackets inside arguments and string literals (f("x, y", [a1, 2, [1]]), g(...)[0]), literals that look like syntax, typed expressions, UNNEST, aliases written as / AS; families rotating over plain, DISTINCT, DISTINCT COUNT, TOP, GROUP BY with aggregates, * EXCEPT, UPDATE, JOIN, JOIN + DISTINCT COUNT; rectangular tables; header / no header alternating. Each case: rbql.query with probes vs reference header names, icontract-armed query_table, CSV writer (every case) and query_pandas_dataframe (every 4th) which enforce the width; every 4th headed case also through SqliteRecordIterator / SqliteDbRegistry over a table holding the same data (plain, with a GENERATED column VIRTUAL or STORED, through a VIEW) into the CSV writer; JS leg. distinct_nontrivial = distinct (query, header names) that produced an output header.',
+        'rule': 'select lists of 1-4 items over fields in five spellings, stars, NR / NF / aNR / bNR, calls of user functions with commas and brackets inside arguments and string literals (f("x, y", [a1, 2, [1]]), g(...)[0]), literals that look like syntax, typed expressions, UNNEST, aliases written as / AS; families rotating over plain, quotients (a slash right after a closing bracket and another one in a later item), DISTINCT, DISTINCT COUNT, TOP, GROUP BY with aggregates, * EXCEPT, UPDATE, JOIN, JOIN + DISTINCT COUNT; rectangular tables; header / no header alternating. Each case: rbql.query with probes vs reference header names, icontract-armed query_table, CSV writer (every case) and query_pandas_dataframe (every 4th) which enforce the width; every 4th headed case also through SqliteRecordIterator / SqliteDbRegistry over a table holding the same data (plain, with a GENERATED column VIRTUAL or STORED, through a VIEW) into the CSV writer; JS leg. distinct_nontrivial = distinct (query, header names) that produced an output header.',
         'required': ['py_cases', 'headers_observed', 'contract_evaluations', 'csv_writer_runs', 'pandas_runs', 'sqlite_runs:plain', 'sqlite_runs:generated', 'sqlite_runs:view', 'js_cases'],
         'extra': {'shapes_seen': shapes},
         'assumptions': ['rv/model/refsem.py header_names states the documented naming rule (DISTINCT COUNT: the count column is col1 and the following positional names count it)', 'parenthesised fields like (a1), mixed-case As, variable-width lists are outside the rule and not generated'],
